@@ -29,6 +29,9 @@ structure Cfg where
   allowed : Str → List Str            -- client ↦ allowed_scopes (default: the provider's scope list)
   grantExpiresIn : Nat                -- authz grant_config expires_in (0 = none)
   authnExpiresIn : Nat                -- lifetime of the authentication event (DEFAULT_AUTHN_EXPIRES_IN)
+  logoutUri : Str → Bool := fun _ => false   -- the client registered a back- or front-channel logout URI
+  refreshLifetime : Nat := 86400      -- the refresh-token handler's lifetime (`_mint_token` falls back to it for a
+                                      -- grant without usage rules for the class: an ExchangeGrant)
 
 structure Tok where
   id : Nat
@@ -53,6 +56,7 @@ structure Gr where
   openid : Bool                 -- "openid" in authorization request scope
   redirect : Option Str         -- redirect_uri of the authorization request
   authnUntil : Nat              -- authentication_event.valid_until
+  xchg : Bool := false          -- an ExchangeGrant (token exchange by another client): hard-wired usage rules
   deriving Repr
 
 /-- a token request that passed `parse_request` -/
@@ -88,14 +92,17 @@ def updTok (toks : List Tok) (id : Nat) (f : Tok → Tok) : List Tok :=
 
 def isSubset (a b : List Str) : Bool := a.all (fun x => b.contains x)
 
-/-- `Grant.find_scope(based_on)` with fuel: nearest ancestor with a non-empty scope, else the grant's -/
+/-- `Grant.find_scope(based_on)` with fuel: nearest ancestor AMONG THE GRANT'S OWN TOKENS
+    (`Grant.get_token` only searches `issued_token`) with a non-empty scope, else the grant's -/
 def findScope (s : St) (g : Gr) : Nat → Option Nat → List Str
   | 0, _ => g.scope
   | _, none => g.scope
   | fuel+1, some b =>
     match findTok s b with
     | none => g.scope
-    | some t => if !t.scope.isEmpty then t.scope else findScope s g fuel t.basedOn
+    | some t =>
+      if t.gid ≠ g.id then g.scope else
+      if !t.scope.isEmpty then t.scope else findScope s g fuel t.basedOn
 
 /-- `ScopesHandler.filter_scopes` -/
 def filterScopes (cfg : Cfg) (client : Str) (scope : List Str) : List Str :=
@@ -108,6 +115,7 @@ inductive Out where
   | tokens (code : Option Nat) (access : Option Nat) (refresh : Option Nat) (idtok : Option Nat) (scope : List Str)
   | userinfo (gid : Nat) (scope : List Str)
   | introspect (active : Bool) (scope : List Str)
+  | exchanged (id : Nat) (scope : List Str)
   | ok
   deriving Repr
 
@@ -117,6 +125,7 @@ inductive Op where
   | tokenParse (client : Str) (code : Nat) (redirect : Option Str)
   | tokenProcess (idx : Nat)
   | refresh (client : Str) (rt : Nat) (scope : Option (List Str))
+  | exchange (client : Str) (subj : Nat) (styp : Cls) (rtyp : Option Cls) (scope : Option (List Str))
   | userinfo (tok : Nat)
   | introspect (client : Str) (tok : Nat)
   | revokeEp (client : Str) (tok : Nat)
@@ -124,11 +133,21 @@ inductive Op where
   | revokeGrant (gid : Nat)
   | revokeClient (user client : Str)
   | revokeUser (user : Str)
+  | logoutAll (user : Str)
   | remove (gid : Nat)
+
+/-- the usage rules of a grant: the authz configuration, or what `ExchangeGrant.__init__` hard-wires -/
+def ruleOf (cfg : Cfg) (g : Gr) (cls : Cls) : Rule :=
+  if g.xchg then
+    match cls with
+    | .access => { mints := [.access], expiresIn := 60 }
+    | .refresh => { mints := [.access, .refresh], expiresIn := cfg.refreshLifetime }   -- `RefreshToken.set_defaults`
+    | _ => { mints := [], expiresIn := 0 }
+  else cfg.rule cls
 
 /-- new token object (`Grant.mint_token` success path, expiry from the usage rule) -/
 def newTok (cfg : Cfg) (s : St) (g : Gr) (cls : Cls) (basedOn : Option Nat) (scope : List Str) : Tok :=
-  let r := cfg.rule cls
+  let r := ruleOf cfg g cls
   { id := s.next, gid := g.id, cls := cls, basedOn := basedOn, used := 0,
     maxUsage := if cls = .code then some 1 else none,
     mints := r.mints, revoked := false,
@@ -218,6 +237,39 @@ def mkGrant (cfg : Cfg) (s : St) (user client : Str) (scope : List Str) (redirec
     scope := filterScopes cfg client scope, openid := scope.contains (Wire.lit "openid"), redirect := redirect,
     authnUntil := s.now + cfg.authnExpiresIn }
 
+/-- the mint of a token exchange: based on the subject token (which may live in ANOTHER grant),
+    explicit scope, and `new_token.expires_at = token.expires_at` -/
+def mintX (cfg : Cfg) (s : St) (g : Gr) (cls : Cls) (b : Nat) (sc : List Str) : MintRes :=
+  if !grActive s.now g then .grantInactive else
+  match findTok s b with
+  | none => .notAllowed
+  | some bt =>
+    if !bt.mints.contains cls then .notAllowed else
+    if !tokActive s.now bt then .notAllowed else
+    let t := { newTok cfg s g cls (some b) sc with exp := bt.exp }
+    .ok { s with next := s.next + 1,
+                 toks := updTok s.toks b (fun x => { x with used := x.used + 1 }) ++ [t] } t.id
+
+/-- `validate_token_exchange_policy`: requested ∩ subject scope (a set: no duplicates) -/
+def xScope (req : Option (List Str)) (subj : List Str) : List Str :=
+  ((req.getD subj).filter (fun x => subj.contains x)).eraseDups
+
+/-- the ExchangeGrant created when another client exchanges the token: same user, authentication
+    event and authorization request as the subject's grant; no expiry of its own -/
+def mkXGrant (s : St) (g : Gr) (client : Str) (sc : List Str) : Gr :=
+  { id := s.next, user := g.user, client := client, revoked := false, exp := 0, scope := sc,
+    openid := g.openid, redirect := g.redirect, authnUntil := g.authnUntil, xchg := true }
+
+/-- an ID token was ever issued under the grant (`last_issued_token_of_type("id_token")`: expired or
+    revoked ones count) -/
+def hasIdToken (s : St) (g : Gr) : Bool := s.toks.any (fun t => t.gid = g.id ∧ t.cls = .idtoken)
+
+/-- `Session.logout_all_clients`: the client sessions of the user that are told about the logout — the
+    client registered a logout URI and one of its grants carries an ID token — are revoked as a whole -/
+def logoutTargets (cfg : Cfg) (s : St) (user : Str) : List Nat :=
+  (s.grants.filter (fun g => g.user = user ∧ cfg.logoutUri g.client ∧
+      s.grants.any (fun g' => g'.user = user ∧ g'.client = g.client ∧ hasIdToken s g'))).map (·.id)
+
 def step (cfg : Cfg) (s : St) : Op → St × Out
   | .tick n => ({ s with now := s.now + n }, .ok)
   | .authorize user client scope redirect =>
@@ -290,6 +342,37 @@ def step (cfg : Cfg) (s : St) : Op → St × Out
           let r3 := mintExtra cfg s2 g .idtoken rt sc wantId
           let s4 := incUsed r3.1 rt
           (revokeIf s4 cfg.revokeRefreshOnIssue rt, .tokens none (some atk) r2.2 r3.2 sc)
+  | .exchange client subj styp rtyp scope =>
+    match findTok s subj with
+    | none => (s, .err "invalid_request")
+    | some t =>
+      match findGr s t.gid with
+      | none => (s, .err "invalid_request")
+      | some g =>
+        -- post_parse_request
+        if styp ≠ .access ∧ styp ≠ .refresh then (s, .err "invalid_request") else
+        if t.cls ≠ styp then (s, .err "invalid_request") else
+        if !tokActive s.now t then (s, .err "invalid_request") else
+        let cls := rtyp.getD .access
+        if cls ≠ .access ∧ cls ≠ .refresh then (s, .err "invalid_request") else
+        if rtyp = some .refresh ∧ !t.scope.contains (Wire.lit "offline_access") then (s, .err "invalid_request") else
+        let sc := xScope scope t.scope
+        let fsc := filterScopes cfg client sc
+        if fsc.isEmpty then (s, .err "invalid_scope") else
+        if cls = .refresh ∧ !fsc.contains (Wire.lit "offline_access") then (s, .err "invalid_request") else
+        -- process_request
+        if g.client = client then
+          match mintX cfg s g cls subj sc with
+          | .ok s1 id => (s1, .exchanged id sc)
+          | .notAllowed => (s, .err "invalid_grant")
+          | .grantInactive => (s, .err "grant_inactive")
+        else
+          -- another client: an ExchangeGrant is created first and stays even when the mint fails
+          let xg := mkXGrant s g client sc
+          let s1 : St := { s with next := s.next + 1, grants := s.grants ++ [xg] }
+          match mintX cfg s1 xg cls subj sc with
+          | .ok s2 id => (s2, .exchanged id sc)
+          | _ => (s1, .err "invalid_grant")
   | .userinfo tok =>
     match findTok s tok with
     | none => (s, .err "invalid_token")
@@ -343,6 +426,9 @@ def step (cfg : Cfg) (s : St) : Op → St × Out
     let gs := (s.grants.filter (fun g => g.user = user)).map (·.id)
     if gs.isEmpty then (s, .err "unknown_session") else
     (gs.foldl revokeGr s, .ok)
+  | .logoutAll user =>
+    if (s.grants.filter (fun g => g.user = user)).isEmpty then (s, .err "unknown_session") else
+    ((logoutTargets cfg s user).foldl revokeGr s, .ok)
   | .remove gid =>
     match findGr s gid with
     | none => (s, .err "unknown_grant")
